@@ -4,7 +4,8 @@
 # under /verif/seeded/<ID>-<n>/ (patch.diff, demo.py, notes.md, meta.json).  Works on private copies of /repo.
 id=$1; shift
 checks=${*:-$id}
-src=/tmp/seed-$id/seed_out
+src=${SEED_SRC_PREFIX:-/tmp/seed-}$id/seed_out
+off=${SEED_OFFSET:-0}
 [ -d "$src" ] || { echo "no $src" >&2; exit 2; }
 for n in 1 2; do
   [ -f "$src/change$n.diff" ] || continue
@@ -12,7 +13,7 @@ for n in 1 2; do
   cp -a /repo/. "$tree"/
   mkdir -p "$tree/seed_out"
   # demos must import the library from the tree they sit in (seed_out/..), not from the agent's worktree
-  sed "s#'/tmp/seed-$id'#__import__('os').path.dirname(__import__('os').path.dirname(__import__('os').path.abspath(__file__)))#g; s#\"/tmp/seed-$id\"#__import__('os').path.dirname(__import__('os').path.dirname(__import__('os').path.abspath(__file__)))#g" "$src/demo$n.py" > "$tree/seed_out/demo$n.py"
+  sed "s#'${SEED_SRC_PREFIX:-/tmp/seed-}$id'#__import__('os').path.dirname(__import__('os').path.dirname(__import__('os').path.abspath(__file__)))#g; s#\"${SEED_SRC_PREFIX:-/tmp/seed-}$id\"#__import__('os').path.dirname(__import__('os').path.dirname(__import__('os').path.abspath(__file__)))#g" "$src/demo$n.py" > "$tree/seed_out/demo$n.py"
   clean_rc=$( (cd "$tree" && timeout 300 /venv/bin/python seed_out/demo$n.py >/dev/null 2>&1; echo $?) )
   if ! (cd "$tree" && git apply "$src/change$n.diff"); then
     echo "$id-$n: patch does not apply to current /repo"; rm -rf "$tree"; continue
@@ -27,12 +28,12 @@ for n in 1 2; do
     results="$results $c:exit=$rc:$sigs"
     rm -f "$out"
   done
-  echo "$id-$n: demo clean rc=$clean_rc, with change rc=$demo_rc; tests: $tests; checks:$results"
+  echo "$id-$((n+off)): demo clean rc=$clean_rc, with change rc=$demo_rc; tests: $tests; checks:$results"
   case "$tests" in *"244 passed"*) ok=1;; *) ok=0;; esac
   if [ "$clean_rc" = 0 ] && [ "$demo_rc" != 0 ] && [ $ok = 1 ]; then
-    d=/verif/seeded/$id-$n; mkdir -p "$d"
+    d=/verif/seeded/$id-$((n+off)); mkdir -p "$d"
     cp "$src/change$n.diff" "$d/patch.diff"; cp "$tree/seed_out/demo$n.py" "$d/demo.py"; cp "$src/notes.md" "$d/notes.md"
-    /venv/bin/python - "$d" "$id" "$n" "$tests" "$clean_rc" "$demo_rc" "$results" <<'EOF'
+    /venv/bin/python - "$d" "$id" "$((n+off))" "$tests" "$clean_rc" "$demo_rc" "$results" <<'EOF'
 import json, sys
 d, pid, n, tests, clean_rc, demo_rc, results = sys.argv[1:8]
 checks = {}
@@ -54,7 +55,7 @@ json.dump(dict(property=pid, change=int(n), source='fresh sub-agent given only t
                checks=checks), open(d + '/meta.json', 'w'), indent=1)
 EOF
   else
-    echo "$id-$n: NOT kept (demo/tests conditions not met)"
+    echo "$id-$((n+off)): NOT kept (demo/tests conditions not met)"
   fi
   rm -rf "$tree"
 done
